@@ -47,6 +47,15 @@ def unit_spec(u):
         m = {"name": "UnitBus", "sigs": [["p", 1, "inout"], ["n", 1, "inout"], ["w", 3, "in"]], "bundles": [],
              "insts": [{"name": "l", "of": ["cell", 0], "kind": "inst", "tag": 5, "conns": [["a", ["sig", "p"]], ["b", ["sig", "n"]], ["c", ["sig", "w"]]]}]}
         return [leaf], [], [m], ["mod", 0], ["p", "n"]
+    if u == "mod_rolebundle":
+        # a bundle port whose leaf directions come from the instance's role
+        rb = {"name": "URB", "sigs": [["x", 1, "role_ab"], ["y", 2, "role_ba"], ["z", 1, "in"]], "subs": [], "roles": True}
+        m = {"name": "UnitRole", "sigs": [["p", 1, "inout"], ["n", 1, "inout"]], "bundles": [["rb", 0, True, True, "A", "ctor"]],
+             "insts": [{"name": "l", "of": ["cell", 0], "kind": "inst", "tag": 5,
+                        "conns": [["a", ["sig", "p"]], ["b", ["bref", ["bun", "rb"], "x"]], ["c", ["cat", [["sig", "n"], ["bref", ["bun", "rb"], "y"]]]]]},
+                       {"name": "l2", "of": ["cell", 0], "kind": "inst", "tag": 6,
+                        "conns": [["a", ["bref", ["bun", "rb"], "z"]], ["b", ["sig", "n"]], ["c", ["cat", [["sig", "p"], ["bref", ["bun", "rb"], "y"]]]]]}]}
+        return [leaf], [rb], [m], ["mod", 0], ["p", "n"]
     if u.startswith("mod_bundle"):
         # (mod_bundle_i / _units / _inner: the bundle-valued port is named like one of the generators' own objects)
         bb = u[len("mod_bundle_"):] or "bb"
@@ -63,7 +72,7 @@ def unit_spec(u):
 
 
 UNITS = ["R", "C", "L", "Vcvs", "Mos", "Bipolar", "ext2", "ext3", "ext4", "mod_bus", "mod_bundle", "mod_gsdb",
-         "adv_i", "adv_units", "adv_elems", "adv_inner", "adv_all", "mod_bundle_i", "mod_bundle_units", "mod_bundle_inner"]
+         "adv_i", "adv_units", "adv_elems", "adv_inner", "adv_all", "mod_bundle_i", "mod_bundle_units", "mod_bundle_inner", "mod_rolebundle"]
 TAG = 7
 
 
@@ -86,7 +95,8 @@ def chain_spec(u, first, second, n, extra_port=False):
                 d = "port"
             sigs.append([p[1], p[2], d])
         else:
-            buns.append([p[1], p[2], True, False, None, "ctor"])
+            src = [b for b in mods[of[1]]["bundles"] if b[0] == p[1]][0] if of[0] == "mod" else None
+            buns.append([p[1], p[2], True, bool(src[3]) if src else False, src[4] if src else None, "ctor"])
     taken = {p[1] for p in iface}
     ser = "i"
     while ser in taken:
@@ -178,6 +188,24 @@ def eval_case(case):
     except (model.ModelError, pkgread.PkgError) as e:
         out.update(status="fail", sig="malformed:" + type(e).__name__, detail=str(e)[:300])
         return out
+    # "exposes exactly m's ports": the generated module's ports (name, width, direction) are those of the unit, as both export
+    try:
+        gen_ports = {(pt.signal, {sg.name: sg.width for sg in pkg.modules[-1].signals}[pt.signal], pt.direction) for pt in pkg.modules[-1].ports}
+        if of[0] == "mod":
+            upkg = h.to_proto(unit)
+            um = upkg.modules[-1]
+            unit_ports = {(pt.signal, {sg.name: sg.width for sg in um.signals}[pt.signal], pt.direction) for pt in um.ports}
+        elif cells[of[1]]["kind"] == "ext":
+            em = [e for e in pkg.ext_modules if e.name.name == cells[of[1]]["name"]][0]
+            unit_ports = {(pt.signal, {sg.name: sg.width for sg in em.signals}[pt.signal], pt.direction) for pt in em.ports}
+        else:
+            unit_ports = None
+        if unit_ports is not None and gen_ports != unit_ports:
+            out.update(status="fail", sig="ports_not_the_units", detail="generated module exports ports %s, the unit %s" % (sorted(gen_ports), sorted(unit_ports)))
+            return out
+    except Exception as e:
+        out.update(status="fail", sig="port_comparison_raises:" + type(e).__name__, detail=str(e)[-300:])
+        return out
     verdict, why = iso.compare(want, got, budget=400)
     if verdict == "iso":
         out.update(status="agree")
@@ -215,7 +243,7 @@ def cases(tier):
 
 
 def record(res, case, v):
-    nt = case["n"] >= 3 or len(unit_spec(case["unit"])[4]) >= 3 or (case["unit"] == "mod_bus" or case["unit"].startswith("mod_bundle"))
+    nt = case["n"] >= 3 or len(unit_spec(case["unit"])[4]) >= 3 or (case["unit"] in ("mod_bus", "mod_rolebundle") or case["unit"].startswith("mod_bundle"))
     feats = [case["kind"], "unit_" + case["unit"], "n%d" % min(case["n"], 4) + ("+" if case["n"] > 4 else "")]
     if case.get("form"):
         feats.append("form_" + case["form"])
